@@ -1,5 +1,6 @@
-(* C13 - the faithful model reaches a fault / does not return / returns NULL on concrete names:
-   "total and safe for every byte string" is false of the code as found *)
+(* C13 - the LEGACY variant of the model (utils/demangle.c as found, before the `fix: demangle:` commits)
+   reaches a fault / does not return / returns NULL on concrete names; the current code returns a
+   string on all of them *)
 From Coq Require Import ZArith List Bool Lia Ascii String.
 Import ListNotations.
 Require Import UV.C13.Model.
@@ -15,19 +16,23 @@ Definition w_dollar_neg : list Z := str "_Z1$u20$xx".
 Definition w_special : list Z := str "_ZT".
 Definition w_null : list Z := str "_ZUt_".
 Definition w_hang : list Z := str "_Z1aD".
+Definition w_lambda : list Z := str "_ZUlvE2147483647_".
 
-Lemma ctor_fault : demangle w_ctor = Crash F_null_out /\ demangle w_dtor = Crash F_null_out /\
-                   demangle w_nested_ctor = Crash F_null_out.
+Lemma ctor_fault : demangle_legacy w_ctor = Crash F_null_out /\ demangle_legacy w_dtor = Crash F_null_out /\
+                   demangle_legacy w_nested_ctor = Crash F_null_out.
 Proof. split; [| split ]; vm_compute; reflexivity. Qed.
-Lemma length_overflow : demangle w_len = Crash F_int_overflow /\ demangle w_len2 = Crash F_int_overflow.
+Lemma length_overflow : demangle_legacy w_len = Crash F_int_overflow /\ demangle_legacy w_len2 = Crash F_int_overflow.
 Proof. split; vm_compute; reflexivity. Qed.
-Lemma dollar_over_read : demangle w_dollar_over = Crash F_over_read.
+Lemma dollar_over_read : demangle_legacy w_dollar_over = Crash F_over_read.
 Proof. vm_compute; reflexivity. Qed.
-Lemma dollar_negative_size : demangle w_dollar_neg = Crash F_neg_size.
+Lemma dollar_negative_size : demangle_legacy w_dollar_neg = Crash F_neg_size.
 Proof. vm_compute; reflexivity. Qed.
-Lemma special_name_index : demangle w_special = Crash F_index_oob.
+Lemma special_name_index : demangle_legacy w_special = Crash F_index_oob.
 Proof. vm_compute; reflexivity. Qed.
-Lemma null_result : demangle w_null = Null.
+Lemma null_result : demangle_legacy w_null = Null.
+Proof. vm_compute; reflexivity. Qed.
+
+Lemma lambda_overflow : demangle_legacy w_lambda = Crash F_int_overflow.
 Proof. vm_compute; reflexivity. Qed.
 
 (* dd_number: the value is (int)strtoul(...): 4294967297 is read as 1 *)
@@ -38,7 +43,7 @@ Proof. vm_compute; reflexivity. Qed.
    For EVERY fuel the model runs out of fuel. *)
 Definition stL : state := mkst 4 5 (Some [97]) 0 1 0 false false false false.
 
-Lemma type_no_progress : forall k, run w_hang 0 (S (S k)) FType stL = R 0 stL.
+Lemma type_no_progress : forall k, run false w_hang 0 (S (S k)) FType stL = R 0 stL.
 Proof. intros k. vm_compute. reflexivity. Qed.
 
 Lemma enc_step : forall rec : fn -> M,
@@ -47,12 +52,12 @@ Proof.
   intros rec H. unfold enc_types_loop, bind. vm_compute in H. vm_compute. rewrite H. reflexivity.
 Qed.
 
-Lemma enc_loop_never_ends : forall k, run w_hang 0 k LEncTypes stL = OOF.
+Lemma enc_loop_never_ends : forall k, run false w_hang 0 k LEncTypes stL = OOF.
 Proof.
   induction k as [| k IH]; [ reflexivity |].
   destruct k as [| [| k']]; [ vm_compute; reflexivity | vm_compute; reflexivity |].
-  change (run w_hang 0 (S (S (S k'))) LEncTypes stL)
-    with (enc_types_loop w_hang 0 (run w_hang 0 (S (S k'))) stL).
+  change (run false w_hang 0 (S (S (S k'))) LEncTypes stL)
+    with (enc_types_loop w_hang 0 (run false w_hang 0 (S (S k'))) stL).
   rewrite enc_step; [ exact IH | apply type_no_progress ].
 Qed.
 
@@ -64,13 +69,13 @@ Proof.
   vm_compute. rewrite H1. rewrite H2. reflexivity.
 Qed.
 
-Lemma hang_every_fuel : forall fuel, demangle_fuel fuel w_hang = Hang.
+Lemma hang_every_fuel : forall fuel, demangle_fuel false fuel w_hang = Hang.
 Proof.
   intros fuel. destruct fuel as [| [| [| k]]];
     [ vm_compute; reflexivity | vm_compute; reflexivity | vm_compute; reflexivity |].
-  assert (E : run w_hang 0 (S (S (S k))) FEncoding (st0 5) = OOF).
-  { change (run w_hang 0 (S (S (S k))) FEncoding (st0 5))
-      with (dd_encoding w_hang 0 (run w_hang 0 (S (S k))) (st0 5)).
+  assert (E : run false w_hang 0 (S (S (S k))) FEncoding (st0 5) = OOF).
+  { change (run false w_hang 0 (S (S (S k))) FEncoding (st0 5))
+      with (dd_encoding w_hang 0 (run false w_hang 0 (S (S k))) (st0 5)).
     apply enc_top; [ vm_compute; reflexivity | apply enc_loop_never_ends ]. }
   unfold demangle_fuel.
   replace (negb (mangled_form w_hang)) with false by (vm_compute; reflexivity).
@@ -78,3 +83,12 @@ Proof.
   replace (Z.of_nat (List.length w_hang) - 0) with 5 by (vm_compute; reflexivity).
   rewrite E. reflexivity.
 Qed.
+
+(* the code as it is now returns a string on every legacy witness *)
+Lemma witnesses_fixed :
+  demangle w_ctor = Str w_ctor /\ demangle w_dtor = Str w_dtor /\ demangle w_nested_ctor = Str w_nested_ctor /\
+  demangle w_len = Str w_len /\ demangle w_len2 = Str w_len2 /\
+  demangle w_dollar_over = Str (str "aa$C") /\ demangle w_dollar_neg = Str w_dollar_neg /\
+  demangle w_special = Str w_special /\ demangle w_null = Str w_null /\ demangle w_hang = Str w_hang /\
+  demangle w_lambda = Str (str "$_2147483648").
+Proof. vm_compute. repeat split; reflexivity. Qed.
